@@ -18,16 +18,17 @@ CONSTANTS MaxEv,     \* events per history after the initial full connection
 
 Variants == {"same", "suiteRemoved", "emsDropped", "etmDropped", "sniChanged"}
 
-VARIABLES kind,     \* resumption mechanism of this history
+VARIABLES authd,    \* the client authenticates with a certificate in the first connection only; afterwards it presents none
+          kind,     \* resumption mechanism of this history
           sess,     \* the client's stored session (abstract)
           srv,      \* server deployment: [key: Nat (current key generation), kept: SUBSET Nat, cache: BOOLEAN]
           open,     \* a connection is currently open (must be closed before the next connect)
           hist,     \* events so far, each with the specification's prediction
           done
-vars == <<kind, sess, srv, open, hist, done>>
+vars == <<authd, kind, sess, srv, open, hist, done>>
 
 NoSess == [exists |-> FALSE, resumable |-> FALSE, expired |-> FALSE, key |-> 0, incache |-> FALSE,
-           tampered |-> FALSE, ems |-> TRUE, etm |-> TRUE]
+           tampered |-> FALSE, ems |-> TRUE, etm |-> TRUE, cid |-> "none"]
 
 \* the rules --------------------------------------------------------------
 Provenance == IF kind = "id" THEN sess.incache /\ srv.cache /\ ~sess.tampered
@@ -47,37 +48,44 @@ Predict(v) ==
   ELSE IF EligibleBase THEN "resume"                             \* may resume (tlslite-ng does)
   ELSE "full"                                                    \* must fall back cleanly: full handshake completes
 
-Init == /\ kind \in Kinds
+Init == /\ kind \in Kinds /\ authd \in BOOLEAN
         /\ sess = NoSess /\ srv = [key |-> 1, kept |-> {1}, cache |-> TRUE]
         /\ open = FALSE /\ hist = <<>> /\ done = FALSE
 
-Ev(name, arg, pred) == [e |-> name, arg |-> arg, pred |-> pred]
+\* cid: the client identity the server must attribute to the connection if it completes ("-" for other events)
+Ev(name, arg, pred) == [e |-> name, arg |-> arg, pred |-> pred, cid |-> "-"]
+EvC(arg, pred, cid) == [e |-> "connect", arg |-> arg, pred |-> pred, cid |-> cid]
+\* identity proven in THIS handshake: the client certificate is presented in the first connection only
+NoConnectYet == \A i \in 1..Len(hist) : hist[i].e # "connect"
+Presented == IF NoConnectYet /\ authd THEN "A" ELSE "none"
 Len1 == Len(hist) < MaxEv + 1
 
 \* what the session looks like after a full handshake with variant v
 Fresh(v) == [exists |-> TRUE, resumable |-> TRUE, expired |-> FALSE, key |-> srv.key, incache |-> TRUE,
-             tampered |-> FALSE, ems |-> (v # "emsDropped"), etm |-> (v # "etmDropped")]
+             tampered |-> FALSE, ems |-> (v # "emsDropped"), etm |-> (v # "etmDropped"), cid |-> Presented]
 
 Connect(v) ==
   /\ ~open /\ ~done /\ Len1
   /\ (hist = <<>> => v = "same")                      \* the first connection is an ordinary full handshake
   /\ (v \in {"emsDropped", "etmDropped"} => kind # "psk13" \/ v = "etmDropped")
   /\ LET p == Predict(v) IN
-       /\ hist' = Append(hist, Ev("connect", v, p))
+       \* a resumed connection carries the original's authenticated identity; any full handshake only what was
+       \* proven in it - in particular NOT the identity named by a ticket that was declined
+       /\ hist' = Append(hist, EvC(v, p, IF p = "resume" THEN sess.cid ELSE Presented))
        /\ IF p = "full-or-abort"
           THEN done' = TRUE /\ UNCHANGED <<sess, open>>        \* outcome not determined: history ends here
           ELSE /\ done' = FALSE /\ open' = TRUE
                /\ sess' = IF p = "resume"
                           THEN (IF kind = "psk13" THEN [sess EXCEPT !.key = srv.key, !.expired = FALSE] ELSE sess)
                           ELSE Fresh(v)
-  /\ UNCHANGED <<kind, srv>>
+  /\ UNCHANGED <<authd, kind, srv>>
 
 Close(how) ==          \* how \in {"clean", "fatal", "abrupt"}
   /\ open /\ ~done /\ Len1
   /\ hist' = Append(hist, Ev("close", how, "-"))
   /\ open' = FALSE
   /\ sess' = [sess EXCEPT !.resumable = (@ /\ how = "clean")]
-  /\ UNCHANGED <<kind, srv, done>>
+  /\ UNCHANGED <<authd, kind, srv, done>>
 
 \* the server's clock passes the lifetime of the ticket / cache entry (the client's own clock is
 \* behind, so it still offers the session); "both": both clocks advance
@@ -85,37 +93,44 @@ Expire(who) ==
   /\ ~open /\ ~done /\ Len1 /\ sess.exists /\ ~sess.expired
   /\ hist' = Append(hist, Ev("expire", who, "-"))
   /\ sess' = [sess EXCEPT !.expired = TRUE]
-  /\ UNCHANGED <<kind, srv, open, done>>
+  /\ UNCHANGED <<authd, kind, srv, open, done>>
 
 RotateKey(keepOld) ==
   /\ ~open /\ ~done /\ Len1 /\ kind # "id" /\ srv.key < 3
   /\ hist' = Append(hist, Ev("rotate", IF keepOld THEN "keep" ELSE "drop", "-"))
   /\ srv' = [srv EXCEPT !.key = @ + 1, !.kept = IF keepOld THEN @ \cup {srv.key + 1} ELSE {srv.key + 1}]
-  /\ UNCHANGED <<kind, sess, open, done>>
+  /\ UNCHANGED <<authd, kind, sess, open, done>>
 
 FlushCache ==
   /\ ~open /\ ~done /\ Len1 /\ kind = "id" /\ sess.exists /\ sess.incache
   /\ hist' = Append(hist, Ev("flush", "-", "-"))
   /\ sess' = [sess EXCEPT !.incache = FALSE]
-  /\ UNCHANGED <<kind, srv, open, done>>
+  /\ UNCHANGED <<authd, kind, srv, open, done>>
+
+\* the cache overflows: maxEntries other sessions are stored, the oldest entries (ours among them) are evicted
+Evict ==
+  /\ ~open /\ ~done /\ Len1 /\ kind = "id" /\ sess.exists /\ sess.incache
+  /\ hist' = Append(hist, Ev("evict", "-", "-"))
+  /\ sess' = [sess EXCEPT !.incache = FALSE]
+  /\ UNCHANGED <<authd, kind, srv, open, done>>
 
 Tamper ==
   /\ ~open /\ ~done /\ Len1 /\ sess.exists /\ ~sess.tampered
   /\ hist' = Append(hist, Ev("tamper", "-", "-"))
   /\ sess' = [sess EXCEPT !.tampered = TRUE]
-  /\ UNCHANGED <<kind, srv, open, done>>
+  /\ UNCHANGED <<authd, kind, srv, open, done>>
 
 Next == \/ \E v \in Variants : Connect(v)
         \/ \E h \in {"clean", "fatal", "abrupt"} : Close(h)
         \/ \E w \in {"server", "both"} : Expire(w)
         \/ \E k \in BOOLEAN : RotateKey(k)
-        \/ FlushCache \/ Tamper
+        \/ FlushCache \/ Evict \/ Tamper
 Spec == Init /\ [][Next]_vars
 
 (***************************************************************************)
 (* Properties of the rules (checked on the model)                          *)
 (***************************************************************************)
-LastConnect == IF hist # <<>> /\ hist[Len(hist)].e = "connect" THEN hist[Len(hist)] ELSE [e |-> "-", arg |-> "-", pred |-> "-"]
+LastConnect == IF hist # <<>> /\ hist[Len(hist)].e = "connect" THEN hist[Len(hist)] ELSE [e |-> "-", arg |-> "-", pred |-> "-", cid |-> "-"]
 \* resumed only from a session that completed, was not invalidated, not expired, right provenance
 ResumeOnlyIfEligible ==
   [][\A v \in Variants : (Connect(v) /\ Predict(v) = "resume") =>
@@ -125,9 +140,13 @@ IneligibleFallsBack ==
   [][\A v \in Variants : (Connect(v) /\ sess.exists /\ ~EligibleBase /\ Consistent(v)) => Predict(v) = "full"]_vars
 \* the resumed connection keeps the original's EMS / EtM properties
 ResumedInherits ==
-  [][\A v \in Variants : (Connect(v) /\ Predict(v) = "resume") => (sess'.ems = sess.ems /\ sess'.etm = sess.etm)]_vars
+  [][\A v \in Variants : (Connect(v) /\ Predict(v) = "resume") =>
+        (sess'.ems = sess.ems /\ sess'.etm = sess.etm /\ sess'.cid = sess.cid)]_vars
+\* an identity is attributed only by the handshake that proved it or by a resumption of that very session
+IdentityFromProofOrResumption ==
+  [][\A v \in Variants : (Connect(v) /\ Predict(v) # "resume" /\ Predict(v) # "full-or-abort") => sess'.cid = Presented]_vars
 
 \* a history is emitted when it cannot be extended further or ends in a connect
 Emit == (hist # <<>> /\ hist[Len(hist)].e = "connect" /\ Len(hist) >= 2) =>
-           PrintT(ToJson([kind |-> kind, hist |-> hist]))
+           PrintT(ToJson([kind |-> kind, auth |-> authd, hist |-> hist]))
 =============================================================================
